@@ -88,7 +88,7 @@ pub enum ROp {
     /// deadline in ns since epoch; followed by ROp::Update by the interpreter
     SetDeadline { src: SrcId, deadline_ns: i64 },
     SetInterest { src: SrcId, interest: u8, mode: u8 },
-    Schedule { src: SrcId, task: TaskId },
+    Schedule { src: SrcId, task: TaskId, #[serde(default)] pendings: u8, #[serde(default)] self_wake: bool, #[serde(default)] val: u8 },
     Wake { task: TaskId },
     DropScheduler { src: SrcId },
     InsertIdle { idle: IdleId },
